@@ -48,11 +48,11 @@ FMT = ("e", 16)
 
 @st.composite
 def _case(draw, n_min=1, n_max=4):
-    route = draw(st.sampled_from(["writeSetFL", "class", "potable:setfl", "potable:lammps_eam_alloy"]))
-    m = draw(gen.eam_model("eam", n_min, n_max, depth=1, pycallables=not route.startswith("potable")))
+    route = draw(st.sampled_from(["writeSetFL", "class", "potable:setfl", "potable:lammps_eam_alloy", "main:setfl"]))
+    m = draw(gen.eam_model("eam", n_min, n_max, depth=1, pycallables=not route.startswith(("potable", "main"))))
     m["route"] = route
     m["share_callables"] = draw(st.booleans())
-    if m["share_callables"] and not route.startswith("potable") and m["embed"] and m["density"] and draw(st.booleans()):
+    if m["share_callables"] and not route.startswith(("potable", "main")) and m["embed"] and m["density"] and draw(st.booleans()):
         # the same definition as embedding function of one element and density of another
         m["density"][0][1] = m["embed"][-1][1]
     return m
@@ -257,8 +257,8 @@ def check_case(m):
         return {"v": [], "cls": cls, "nt": False, "skip": True}
     api_order = None
     try:
-        if route == "cli":
-            res = libroute.run_potable([], ctx)
+        if route in ("cli", "main:setfl"):
+            res = (libroute.run_potable_main if route != "cli" else libroute.run_potable)([], ctx)
             if res["rc"] != 0 or res["out"] is None:
                 return {"v": [("cli:failed", "rc=%r %s\n%s" % (res["rc"], res["stderr"][-500:], ctx))], "cls": cls, "nt": False}
             out = res["out"].decode()
